@@ -64,7 +64,7 @@ def harnesses(tier):
     if tier == "quick":
         spec = [(1, 1, 60), (2, 1, 60), (1, 2, 60), (2, 2, 300)]
     else:
-        spec = [(1, 1, 60), (2, 1, 60), (1, 2, 60), (2, 2, 300), (3, 2, 900), (2, 3, 900), (3, 3, 3600)]
+        spec = [(1, 1, 60), (2, 1, 60), (1, 2, 60), (2, 2, 300), (3, 2, 900), (2, 3, 900), (3, 3, 3600), (4, 3, 3600), (3, 4, 3600), (4, 4, 7200)]
     hs.append((Harness(PROP, "union_no_overlap-1+1-float-semantics", C.with_floats(h_unov), dict(n1=1, n2=1), "union_no_overlap 1+1 with IEEE double semantics for any float arithmetic, durations < 2^17 ms in binary range pieces", split_depth=7, fresh_solver=True), 600))
     for n1, n2, budget in spec:
         hs.append((Harness(PROP, "union_no_overlap-%d+%d" % (n1, n2), h_unov, dict(n1=n1, n2=n2), "union_no_overlap on sorted non-overlapping lists of %d and %d events" % (n1, n2), split_depth=7, cross_solver=2), budget))
@@ -75,7 +75,7 @@ def meta(chk, tier):
     chk.functions = C.source_files("aw_transform/union_no_overlap.py", "aw_core/models.py", "/venv/lib/python3.12/site-packages/timeslot/timeslot.py")
     chk.functions.append(dict(functions=["union_no_overlap", "_split_event", "timeslot.Timeslot.intersects/overlaps/contains", "aw_core.models.Event"]))
     chk.bounds = [
-        "list sizes up to 2+2 (quick), 3+3 (thorough); both lists sorted by timestamp and internally non-overlapping (touching allowed)",
+        "list sizes up to 2+2 (quick), 4+4 (thorough); both lists sorted by timestamp and internally non-overlapping (touching allowed)",
         "timestamps any multiple of 1 ms in [1970, ~2103]; durations any multiple of 1 ms in [0, 1e10 ms], zero-length included",
         "query point t: unconstrained integer microsecond; intervals half-open for the exactly-once count",
     ]
